@@ -26,7 +26,7 @@ static void verif_install_death_flush(void) {
     }
 }
 
-#define MAXTOK 96
+#define MAXTOK 8192
 #define LINEBUF (1 << 20)
 
 static char* g_line;
